@@ -434,16 +434,48 @@ def gen(repo):
     for i, o in enumerate(ops):
         emit(f"  | Op_{o} => {i}%nat")
     emit("  end.")
-    efv = norm(body_of(fs, r"fn escape_filter_value\(value: &str\) -> Cow<'_, str>\s*\{", "escape_filter_value"))
+    efv_raw = body_of(fs, r"fn escape_filter_value\(value: &str\) -> Cow<'_, str>\s*\{", "escape_filter_value")
+    efv = norm(efv_raw)
     pins["escape_filter_value"] = efv
-    # recognised shapes: (a) original: only '"' -> \\"   (b) repaired: '\' -> \\\\ first, then '"' -> \\"
-    shape_a = norm("""if value.contains('"') { Cow::Owned(value.replace('"', r#"\\\\""#)) } else { Cow::Borrowed(value) }""")
-    if efv == shape_a:
-        emit("Definition filter_escapes_backslash : bool := false.")
-    elif "replace('\\\\'," in efv and "replace('\"'," in efv:
-        emit("Definition filter_escapes_backslash : bool := true.")
-    else:
+    # recognised shapes: if value.contains(<guard>) { Cow::Owned(CHAIN) } else { Cow::Borrowed(value) } | Cow::Owned(CHAIN) |
+    # CHAIN.into() | Cow::from(CHAIN), with CHAIN = value.replace('c', lit)[.replace('c', lit)]* and <guard> a char literal
+    # or an array of char literals.  The replacements are applied in source order (C11's model
+    # folds over this list); original code: only '"' -> \\" ; repaired code: '\' -> \\\\ first, then '"' -> \\"
+    chr_lit = r"'((?:\\.|[^\\'])+)'"
+    str_lit = r'(?:r#"(.*?)"#|r"([^"]*)"|"((?:\\.|[^"\\])*)")'
+    one_repl = r"\s*\.replace\(\s*" + chr_lit + r"\s*,\s*" + str_lit + r"\s*\)"
+    mc = re.search(r"value((?:" + one_repl + r")+)", efv_raw, re.S)
+    if not mc:
+        raise TranslatorError("escape_filter_value has an unknown shape (no chain of value.replace(char, literal))")
+    skeleton = efv_raw[: mc.start()] + "CHAIN" + efv_raw[mc.end():]
+    mg = re.search(r"value\.contains\((" + chr_lit + r"|\[[^\]]*\])\)", skeleton)
+    if mg:
+        skeleton = skeleton[: mg.start()] + "GUARD" + skeleton[mg.end():]
+    if norm(skeleton) not in ("ifGUARD{Cow::Owned(CHAIN)}else{Cow::Borrowed(value)}", "Cow::Owned(CHAIN)", "CHAIN.into()",
+                              "Cow::from(CHAIN)"):
         raise TranslatorError("escape_filter_value has an unknown shape")
+
+    guard = [rust_str(g) for g in re.findall(chr_lit, mg.group(1))] if mg else []
+    repls = []
+    for rm in re.finditer(r"\.replace\(" + chr_lit + r",\s*" + str_lit + r"\s*\)", mc.group(1)):
+        ch = rust_str(rm.group(1))
+        if rm.group(2) is not None:
+            lit = rm.group(2).encode()
+        elif rm.group(3) is not None:
+            lit = rm.group(3).encode()
+        else:
+            lit = rust_str(rm.group(4))
+        if len(ch) != 1:
+            raise TranslatorError("escape_filter_value: non-byte char in replace")
+        repls.append((ch[0], lit))
+    if not mg:
+        guard = [bytes([c]) for c, _ in repls]      # no borrowed fast path: every replaced char "guards"
+    if any(len(g) != 1 for g in guard) or not repls:
+        raise TranslatorError("escape_filter_value: guard/replacements not understood")
+    emit("Definition filter_value_guard : list N := " + coq_bytes([g[0] for g in guard]) + ".")
+    emit("Definition filter_value_replacements : list (N * bytes) := ["
+         + "; ".join(f"({c}, {coq_bytes(l)})" for c, l in repls) + "].")
+    emit(f"Definition filter_escapes_backslash : bool := {'true' if any(c == 92 for c, _ in repls) else 'false'}.")
 
     # ------------------------------------------------------------ song.rs
     ss = strip_comments(read(repo, "mpd_client/src/responses/song.rs"))
